@@ -77,7 +77,7 @@ Fixpoint parse_digits (l : list N) (acc : N) : option N :=
   | x :: r => match digit x with Some d => parse_digits r (acc * 10 + d) | None => None end
   end.
 Definition parse_u32 (l : list N) : option N :=
-  let l' := match l with 43 :: r => r | _ => l end in
+  let l' := match l with x :: r => if x =? 43 then r else l | [] => l end in
   match l' with
   | [] => None
   | _ => match parse_digits l' 0 with
